@@ -262,6 +262,23 @@ Definition float_token (t : text) : bool :=
   match t with c :: _ => isdigit c || Z.eqb c cMINUS | [] => false end
   && forallb numch t && negb (int_like t).
 
+(* what CPython prints for the other floats *)
+Definition t_inf : text := [105; 110; 102]%Z.
+Definition t_ninf : text := [45; 105; 110; 102]%Z.
+Definition t_nan : text := [110; 97; 110]%Z.
+Definition nonfinite_text (t : text) : bool :=
+  text_eqb t t_inf || text_eqb t t_ninf || text_eqb t t_nan.
+
+Lemma text_eqb_eq a b : text_eqb a b = true -> a = b.
+Proof. unfold text_eqb. apply list_eqb_spec. intros x y. apply Z.eqb_eq. Qed.
+
+Lemma nonfinite_cases t : nonfinite_text t = true -> t = t_inf \/ t = t_ninf \/ t = t_nan.
+Proof.
+  unfold nonfinite_text. intros H. apply orb_true_iff in H. destruct H as [H|H].
+  - apply orb_true_iff in H. destruct H as [H|H]; apply text_eqb_eq in H; auto.
+  - apply text_eqb_eq in H. auto.
+Qed.
+
 Lemma starts_with_app p : forall s, starts_with p (p ++ s) = Some s.
 Proof. induction p as [|a p IH]; intros s; cbn; [reflexivity|]. now rewrite Z.eqb_refl. Qed.
 
@@ -284,9 +301,11 @@ Section Main.
   Variable printable : Z -> bool.
   Variable ffinite : F -> bool.
   (* CPython: a finite float prints as a number token that is not an integer
-     literal and that float() maps back to the same float *)
-  Hypothesis H_float : forall f, ffinite f = true ->
-    float_token (frepr f) = true /\ fparse (frepr f) = Some f.
+     literal and that float() maps back to the same float; the other floats
+     print as inf, -inf or nan *)
+  Hypothesis H_float : forall f,
+    if ffinite f then float_token (frepr f) = true /\ fparse (frepr f) = Some f
+    else nonfinite_text (frepr f) = true.
 
   Local Notation pv := (pyval F).
   Local Notation rp := (repr F frepr printable).
@@ -523,7 +542,7 @@ Section Main.
 
   Lemma P_float f : P (VFloat f).
   Proof.
-    intros Hw. cbn [vwf] in Hw. destruct (H_float f Hw) as [Ht Hp].
+    intros Hw. cbn [vwf] in Hw. pose proof (H_float f) as Hfl. rewrite Hw in Hfl. destruct Hfl as [Ht Hp].
     unfold float_token in Ht. apply andb_true_iff in Ht. destruct Ht as [Ht Hi].
     apply andb_true_iff in Ht. destruct Ht as [Hh Hn]. apply negb_true_iff in Hi.
     apply (P_number (VFloat f) (frepr f)); auto.
@@ -772,11 +791,282 @@ Section Main.
     rewrite app_nil_r in H. rewrite H. reflexivity.
   Qed.
 
+  (* ================= accepted values ================= *)
+  Local Notation ev := (eval_var F frepr fparse printable).
+
+  (* strings over code points in range; floats unrestricted *)
+  Fixpoint swf (v : pv) : bool :=
+    match v with
+    | VStr s => forallb char_ok s
+    | VList l => forallb swf l
+    | VTuple l => forallb swf l
+    | VSet l => forallb swf l
+    | VDict l => forallb (fun kv => let '(k, x) := kv in swf k && swf x) l
+    | _ => true
+    end.
+
+  Definition nonbracket (c : Z) : Prop :=
+    Z.eqb c cLB = false /\ Z.eqb c cLP = false /\ Z.eqb c cLC = false.
+
+  Lemma pval_0 s : pval 0 s = None.
+  Proof. reflexivity. Qed.
+
+  (* inf, -inf, nan are not literals *)
+  Lemma nonfinite_unreadable t rest fuel : nonfinite_text t = true -> pval fuel (t ++ rest) = None.
+  Proof.
+    intros H. destruct fuel; [reflexivity|].
+    destruct (nonfinite_cases t H) as [-> | [-> | ->]]; reflexivity.
+  Qed.
+
+  Lemma nonfinite_head t : nonfinite_text t = true -> exists c r, t = c :: r /\ head_ok c.
+  Proof.
+    intros H. destruct (nonfinite_cases t H) as [-> | [-> | ->]]; eexists; eexists; (split; [reflexivity|repeat split]).
+  Qed.
+
+  (* an atom that the parser reads back does so with any non-zero fuel *)
+  Lemma atom_any_fuel v c t : vwf v = true -> rp v = c :: t -> nonbracket c ->
+    forall rest f, delim_ok rest = true -> pval (S f) (rp v ++ rest) = Some (v, rest).
+  Proof.
+    intros Hw E (B1 & B2 & B3) rest f Hd. destruct (P_all v Hw) as [_ H].
+    specialize (H rest (S (length (rp v))) Hd (Nat.lt_succ_diag_r _)).
+    rewrite E in *. rewrite <- app_comm_cons in *. rewrite pval_atom in * by assumption. exact H.
+  Qed.
+
+  Definition Q (v : pv) : Prop :=
+    swf v = true -> forall rest fuel v' rest', delim_ok rest = true ->
+      pval fuel (rp v ++ rest) = Some (v', rest') -> v' = v /\ rest' = rest.
+
+  Lemma Q_atom v c t : vwf v = true -> rp v = c :: t -> nonbracket c -> Q v.
+  Proof.
+    intros Hw E Hb _ rest fuel v' rest' Hd H. destruct fuel; [discriminate|].
+    rewrite (atom_any_fuel v c t Hw E Hb rest fuel Hd) in H. injection H as <- <-. auto.
+  Qed.
+
+  Lemma head_number v c r : rp v = c :: r -> (isdigit c = true \/ c = cMINUS) -> nonbracket c /\ head_ok c.
+  Proof.
+    intros _ Hc. destruct (digit_or_minus_not_quote c Hc) as (_ & _ & B1 & B2 & B3 & C1 & C2 & C3).
+    repeat split; assumption.
+  Qed.
+
+  Lemma float_token_head t : float_token t = true -> exists c r, t = c :: r /\ (isdigit c = true \/ c = cMINUS).
+  Proof.
+    unfold float_token. intros H. apply andb_true_iff in H. destruct H as [H _].
+    apply andb_true_iff in H. destruct H as [H _]. destruct t as [|c r]; [discriminate|].
+    exists c, r. split; [reflexivity|]. apply orb_true_iff in H. destruct H as [H|H]; [auto|right; now apply Z.eqb_eq].
+  Qed.
+
+  (* head character of any printed value *)
+  Lemma head_swf v : exists c t, rp v = c :: t /\ head_ok c.
+  Proof.
+    destruct v as [|b|z|f|s|l|l|l|l].
+    - eexists; eexists; (split; [reflexivity|repeat split]).
+    - destruct b; eexists; eexists; (split; [reflexivity|repeat split]).
+    - destruct (repr_int_shape z) as (c & r & E & Hc & _). exists c, r. split; [exact E|].
+      exact (proj2 (head_number (VInt z) c r E Hc)).
+    - pose proof (H_float f) as Hf. destruct (ffinite f).
+      + destruct Hf as [Ht _]. destruct (float_token_head _ Ht) as (c & r & E & Hc).
+        exists c, r. split; [exact E|]. exact (proj2 (head_number (VFloat f) c r E Hc)).
+      + apply nonfinite_head. exact Hf.
+    - change (rp (VStr s)) with (repr_str printable s). unfold repr_str.
+      eexists; eexists; split; [reflexivity|]. destruct (quote_for_quote s) as [-> | ->]; repeat split.
+    - eexists; eexists; (split; [apply repr_VList|repeat split]).
+    - rewrite repr_VTuple. destruct l as [|a [|b r]]; eexists; eexists; (split; [reflexivity|repeat split]).
+    - rewrite repr_VSet. destruct l; eexists; eexists; (split; [reflexivity|repeat split]).
+    - eexists; eexists; (split; [apply repr_VDict|repeat split]).
+  Qed.
+
+  Lemma expect_head_none' close v Y :
+    (close = cRB \/ close = cRP \/ close = cRC) -> expect close (rp v ++ Y) = None.
+  Proof.
+    intros Hc. destruct (head_swf v) as (c & t & E & H1 & H2 & H3). rewrite E. cbn [app expect].
+    destruct Hc as [-> | [-> | ->]]; [rewrite H1|rewrite H2|rewrite H3]; reflexivity.
+  Qed.
+
+  Lemma Q_none : Q VNone.
+  Proof. apply (Q_atom VNone 78%Z [111; 110; 101]%Z); [reflexivity|reflexivity|repeat split]. Qed.
+  Lemma Q_bool b : Q (VBool b).
+  Proof.
+    destruct b.
+    - apply (Q_atom (VBool true) 84%Z [114; 117; 101]%Z); [reflexivity|reflexivity|repeat split].
+    - apply (Q_atom (VBool false) 70%Z [97; 108; 115; 101]%Z); [reflexivity|reflexivity|repeat split].
+  Qed.
+  Lemma Q_int z : Q (VInt z).
+  Proof.
+    destruct (repr_int_shape z) as (c & r & E & Hc & _).
+    apply (Q_atom (VInt z) c r); [reflexivity|exact E|]. exact (proj1 (head_number (VInt z) c r E Hc)).
+  Qed.
+  Lemma Q_float f : Q (VFloat f).
+  Proof.
+    pose proof (H_float f) as Hf. destruct (ffinite f) eqn:Ef.
+    - destruct Hf as [Ht _]. destruct (float_token_head _ Ht) as (c & r & E & Hc).
+      apply (Q_atom (VFloat f) c r); [exact Ef|exact E|]. exact (proj1 (head_number (VFloat f) c r E Hc)).
+    - intros _ rest fuel v' rest' _ H. change (rp (VFloat f)) with (frepr f) in H.
+      rewrite nonfinite_unreadable in H by exact Hf. discriminate.
+  Qed.
+  Lemma Q_str s : Q (VStr s).
+  Proof.
+    intros Hw. revert Hw. change (swf (VStr s)) with (vwf (VStr s)). intros Hw.
+    change (rp (VStr s)) with (repr_str printable s). unfold repr_str.
+    refine (Q_atom (VStr s) (quote_for s) _ Hw eq_refl _ Hw).
+    destruct (quote_for_quote s) as [-> | ->]; repeat split.
+  Qed.
+  Lemma Q_set0 : Q (VSet []).
+  Proof. apply (Q_atom (VSet []) 115%Z [101; 116; 40; 41]%Z); [reflexivity|reflexivity|repeat split]. Qed.
+
+  Lemma tail_inv l : Forall Q l -> forallb swf l = true ->
+    forall rest fuel vs s2, starts_with tSep rest = None -> delim_ok rest = true ->
+      ptail fuel (tail_text l ++ rest) = Some (vs, s2) -> vs = l /\ s2 = rest.
+  Proof.
+    induction 1 as [|x r Hx Hr IH]; intros Hw rest fuel vs s2 Hs Hd H.
+    - destruct fuel; [discriminate|]. cbn [tail_text flat_map app] in H. rewrite ptail_S, Hs in H.
+      injection H as <- <-. auto.
+    - cbn [forallb] in Hw. apply andb_true_iff in Hw. destruct Hw as [Hwx Hwr].
+      destruct fuel; [discriminate|].
+      unfold tail_text in *. cbn [flat_map] in H. rewrite <- !app_assoc in H.
+      rewrite ptail_S, starts_with_app in H.
+      destruct (pval fuel _) as [[v1 s1]|] eqn:E1 in H; [|discriminate].
+      apply (Hx Hwx) in E1; [|apply delim_tail; exact Hd]. destruct E1 as [-> ->].
+      destruct (ptail fuel _) as [[vs1 s3]|] eqn:E2 in H; [|discriminate].
+      apply IH in E2; auto. destruct E2 as [-> ->]. injection H as <- <-. auto.
+  Qed.
+
+  Lemma pairs_inv l : Forall (fun kv => Q (fst kv) /\ Q (snd kv)) l ->
+    forallb (fun kv => let '(k, x) := kv in swf k && swf x) l = true ->
+    forall rest fuel vs s2, starts_with tSep rest = None -> delim_ok rest = true ->
+      ppairs fuel (pairs_text l ++ rest) = Some (vs, s2) -> vs = l /\ s2 = rest.
+  Proof.
+    induction 1 as [|[k x] r [Hk Hx] Hr IH]; intros Hw rest fuel vs s2 Hs Hd H.
+    - destruct fuel; [discriminate|]. cbn [pairs_text flat_map app] in H. rewrite ppairs_S, Hs in H.
+      injection H as <- <-. auto.
+    - cbn [forallb] in Hw. apply andb_true_iff in Hw. destruct Hw as [Hwk Hwr].
+      apply andb_true_iff in Hwk. destruct Hwk as [Hwk Hwx]. cbn [fst snd] in *.
+      destruct fuel; [discriminate|].
+      unfold pairs_text in *. cbn [flat_map pair_text] in H. rewrite <- !app_assoc in H.
+      rewrite ppairs_S, starts_with_app in H.
+      destruct (pval fuel _) as [[v1 s1]|] eqn:E1 in H; [|discriminate].
+      apply (Hk Hwk) in E1; [|reflexivity]. destruct E1 as [-> ->].
+      rewrite starts_with_app in H.
+      destruct (pval fuel _) as [[v2 s3]|] eqn:E2 in H; [|discriminate].
+      apply (Hx Hwx) in E2; [|apply delim_pairs; exact Hd]. destruct E2 as [-> ->].
+      destruct (ppairs fuel _) as [[vs1 s4]|] eqn:E3 in H; [|discriminate].
+      apply IH in E3; auto. destruct E3 as [-> ->]. injection H as <- <-. auto.
+  Qed.
+
+  Lemma Q_list l : Forall Q l -> Q (VList l).
+  Proof.
+    intros HF Hw rest fuel v' rest' Hd H. cbn [swf] in Hw. destruct fuel; [discriminate|].
+    rewrite repr_VList in H. destruct l as [|a r].
+    - cbn [map join app] in H. rewrite pval_list, expect_refl in H. injection H as <- <-. auto.
+    - rewrite join_reprs in H. cbn [forallb] in Hw. apply andb_true_iff in Hw. destruct Hw as [Hwa Hwr].
+      inversion HF as [|? ? Ha Hr]; subst.
+      rewrite <- app_comm_cons, <- !app_assoc in H. cbn [app] in H.
+      rewrite pval_list, expect_head_none' in H by auto.
+      destruct (pval fuel _) as [[v1 s1]|] eqn:E1 in H; [|discriminate].
+      apply (Ha Hwa) in E1; [|apply delim_tail; reflexivity]. destruct E1 as [-> ->].
+      destruct (ptail fuel _) as [[vs s2]|] eqn:E2 in H; [|discriminate].
+      apply (tail_inv r Hr Hwr) in E2; [|reflexivity|reflexivity]. destruct E2 as [-> ->].
+      rewrite expect_refl in H. injection H as <- <-. auto.
+  Qed.
+
+  Lemma Q_set l : Forall Q l -> Q (VSet l).
+  Proof.
+    intros HF. destruct l as [|a r]; [exact Q_set0|].
+    intros Hw rest fuel v' rest' Hd H. cbn [swf] in Hw. destruct fuel; [discriminate|].
+    rewrite repr_VSet, join_reprs in H. cbn [forallb] in Hw. apply andb_true_iff in Hw. destruct Hw as [Hwa Hwr].
+    inversion HF as [|? ? Ha Hr]; subst.
+    rewrite <- app_comm_cons, <- !app_assoc in H. cbn [app] in H.
+    rewrite pval_brace, expect_head_none' in H by auto.
+    destruct (pval fuel _) as [[v1 s1]|] eqn:E1 in H; [|discriminate].
+    apply (Ha Hwa) in E1; [|apply delim_tail; reflexivity]. destruct E1 as [-> ->].
+    assert (Hk : starts_with tKV (tail_text r ++ cRC :: rest) = None) by (destruct r; reflexivity).
+    rewrite Hk in H.
+    destruct (ptail fuel _) as [[vs s2]|] eqn:E2 in H; [|discriminate].
+    apply (tail_inv r Hr Hwr) in E2; [|reflexivity|reflexivity]. destruct E2 as [-> ->].
+    rewrite expect_refl in H. injection H as <- <-. auto.
+  Qed.
+
+  Lemma Q_tuple l : Forall Q l -> Q (VTuple l).
+  Proof.
+    intros HF Hw rest fuel v' rest' Hd H. cbn [swf] in Hw. destruct fuel; [discriminate|].
+    rewrite repr_VTuple in H. destruct l as [|a r].
+    - cbn [map join app] in H. rewrite pval_tuple, expect_refl in H. injection H as <- <-. auto.
+    - cbn [forallb] in Hw. apply andb_true_iff in Hw. destruct Hw as [Hwa Hwr].
+      inversion HF as [|? ? Ha Hr]; subst.
+      destruct r as [|b r].
+      + rewrite <- app_comm_cons, <- !app_assoc in H. cbn [app] in H.
+        rewrite pval_tuple, expect_head_none' in H by auto.
+        destruct (pval fuel _) as [[v1 s1]|] eqn:E1 in H; [|discriminate].
+        apply (Ha Hwa) in E1; [|reflexivity]. destruct E1 as [-> ->].
+        destruct fuel; [discriminate|]. rewrite ptail_S in H. cbn in H. injection H as <- <-. auto.
+      + rewrite join_reprs in H. rewrite <- app_comm_cons, <- !app_assoc in H. cbn [app] in H.
+        rewrite pval_tuple, expect_head_none' in H by auto.
+        destruct (pval fuel _) as [[v1 s1]|] eqn:E1 in H; [|discriminate].
+        apply (Ha Hwa) in E1; [|apply delim_tail; reflexivity]. destruct E1 as [-> ->].
+        destruct (ptail fuel _) as [[vs s2]|] eqn:E2 in H; [|discriminate].
+        apply (tail_inv (b :: r) Hr Hwr) in E2; [|reflexivity|reflexivity]. destruct E2 as [-> ->].
+        rewrite expect_refl in H. injection H as <- <-. auto.
+  Qed.
+
+  Lemma Q_dict l : Forall (fun kv => Q (fst kv) /\ Q (snd kv)) l -> Q (VDict l).
+  Proof.
+    intros HF Hw rest fuel v' rest' Hd H. cbn [swf] in Hw. destruct fuel; [discriminate|].
+    rewrite repr_VDict in H. destruct l as [|[k x] r].
+    - cbn [map join app] in H. rewrite pval_brace, expect_refl in H. injection H as <- <-. auto.
+    - rewrite join_pairs in H. cbn [pair_text] in H.
+      cbn [forallb] in Hw. apply andb_true_iff in Hw. destruct Hw as [Hwk Hwr].
+      apply andb_true_iff in Hwk. destruct Hwk as [Hwk Hwx].
+      inversion HF as [|? ? [Hk Hx] Hr]; subst. cbn [fst snd] in *.
+      rewrite <- app_comm_cons, <- !app_assoc in H. cbn [app] in H.
+      rewrite pval_brace, expect_head_none' in H by auto.
+      destruct (pval fuel _) as [[v1 s1]|] eqn:E1 in H; [|discriminate].
+      apply (Hk Hwk) in E1; [|reflexivity]. destruct E1 as [-> ->].
+      rewrite starts_with_app in H.
+      destruct (pval fuel _) as [[v2 s3]|] eqn:E2 in H; [|discriminate].
+      apply (Hx Hwx) in E2; [|apply delim_pairs; reflexivity]. destruct E2 as [-> ->].
+      destruct (ppairs fuel _) as [[vs s4]|] eqn:E3 in H; [|discriminate].
+      apply (pairs_inv r Hr Hwr) in E3; [|reflexivity|reflexivity]. destruct E3 as [-> ->].
+      rewrite expect_refl in H. injection H as <- <-. auto.
+  Qed.
+
+  Theorem Q_all v : Q v.
+  Proof.
+    induction v using pyval_ind'.
+    - exact Q_none. - apply Q_bool. - apply Q_int. - apply Q_float. - apply Q_str.
+    - now apply Q_list. - now apply Q_tuple. - now apply Q_set. - now apply Q_dict.
+  Qed.
+
+  (* whatever the printed text of a value is read back as, it is that value *)
+  Theorem parse_repr_inv v v' : swf v = true -> parse F fparse (rp v) = Some v' -> v' = v.
+  Proof.
+    intros Hw. unfold parse.
+    destruct (pval (S (length (rp v))) (rp v)) as [[v1 r1]|] eqn:E; [|discriminate].
+    rewrite <- (app_nil_r (rp v)) in E at 2. apply (Q_all v Hw) in E; [|reflexivity].
+    destruct E as [-> ->]. now intros [= <-].
+  Qed.
+
+  (* eval_var accepts only values whose repr it reads back as the same value *)
+  Definition accepted (v : pv) : Prop := exists s, ev s = Some v.
+
+  Theorem accepted_roundtrip v : accepted v -> swf v = true ->
+    parse F fparse (rp v) = Some v /\ ev (rp v) = Some v.
+  Proof.
+    intros [s Hs] Hw. unfold eval_var in Hs.
+    destruct (parse F fparse s) as [v0|]; [|discriminate].
+    destruct (parse F fparse (rp v0)) as [v1|] eqn:E; [|discriminate].
+    injection Hs as ->. pose proof (parse_repr_inv v v1 Hw E) as ->.
+    split; [exact E|]. unfold eval_var. now rewrite E, E.
+  Qed.
+
+  (* the acceptance check refuses no value with finite floats *)
+  Theorem finite_accepted v : vwf v = true -> ev (rp v) = Some v.
+  Proof. intros Hw. unfold eval_var. now rewrite (parse_repr v Hw), (parse_repr v Hw). Qed.
+
   (* ---------- the run database and restart ---------- *)
-  Local Notation rst := (restart F fparse).
+  Local Notation rst := (restart F frepr fparse printable).
   Local Notation sto := (store F frepr printable).
 
-  Definition vars_wf (vs : vars F) : bool := forallb (fun kv => vwf (snd kv)) vs.
+  Definition vars_ok (vs : vars F) : Prop :=
+    Forall (fun kv => accepted (snd kv) /\ swf (snd kv) = true) vs.
 
   Lemma assoc_app_last k (tv : vars F) k0 v0 :
     assoc Nat.eqb k (tv ++ [(k0, v0)]) =
@@ -789,34 +1079,28 @@ Section Main.
     destruct (Nat.eqb k k1); [reflexivity|exact IH].
   Qed.
 
-  (* restart after a first start that stored [vs], with [tv] given on the
-     command line: succeeds, and every name has the command-line value if
-     there is one, else the original value *)
-  Theorem restart_store vs : vars_wf vs = true -> forall tv,
+  (* restart after a first start that accepted and stored [vs], with [tv]
+     given on the command line: succeeds, and every name has the command-line
+     value if there is one, else the original value *)
+  Theorem restart_store vs : vars_ok vs -> forall tv,
     exists tv', rst tv (sto vs) = Some tv' /\
       forall k, assoc Nat.eqb k tv' =
                 match assoc Nat.eqb k tv with Some v => Some v | None => assoc Nat.eqb k vs end.
   Proof.
-    induction vs as [|[k0 v0] vs IH]; intros Hw tv.
+    induction 1 as [|[k0 v0] vs [Ha Hw0] Hvs IH]; intros tv.
     - exists tv. split; [reflexivity|]. intros k. cbn [assoc]. destruct (assoc Nat.eqb k tv); reflexivity.
-    - cbn [vars_wf forallb snd] in Hw. apply andb_true_iff in Hw. destruct Hw as [Hw0 Hw].
-      cbn [store map fst snd restart]. fold (sto vs).
+    - cbn [store map fst snd restart] in *. fold (sto vs).
       destruct (assoc Nat.eqb k0 tv) as [v1|] eqn:E0.
-      + destruct (IH Hw tv) as (tv' & R & A). exists tv'. split; [exact R|].
+      + destruct (IH tv) as (tv' & R & A). exists tv'. split; [exact R|].
         intros k. rewrite A. cbn [assoc].
         destruct (assoc Nat.eqb k tv) eqn:Ek; [reflexivity|].
         destruct (Nat.eqb_spec k k0) as [->|_]; [congruence|reflexivity].
-      + rewrite (parse_repr v0 Hw0).
-        destruct (IH Hw (tv ++ [(k0, v0)])) as (tv' & R & A). exists tv'. split; [exact R|].
+      + destruct (accepted_roundtrip v0 Ha Hw0) as [_ Hev]. rewrite Hev.
+        destruct (IH (tv ++ [(k0, v0)])) as (tv' & R & A). exists tv'. split; [exact R|].
         intros k. rewrite A, assoc_app_last. cbn [assoc].
         destruct (assoc Nat.eqb k tv); [reflexivity|].
         destruct (Nat.eqb k k0); reflexivity.
   Qed.
-
-  (* a stored text that cannot be read and is not overridden makes the restart fail *)
-  Lemma restart_unreadable tv k s rows :
-    assoc Nat.eqb k tv = None -> parse F fparse s = None -> rst tv ((k, s) :: rows) = None.
-  Proof. intros H1 H2. cbn [restart]. now rewrite H1, H2. Qed.
 
   (* an overridden name is not even evaluated *)
   Lemma restart_overridden tv k v s rows :
